@@ -127,6 +127,10 @@ class HTMLParser(object):
 
     def reset(self):
         self.tree.reset()
+        # The phase objects hold per-document state (pending table text, the
+        # drop-next-newline handler), which must not survive into the next parse
+        self.phases = {name: cls(self, self.tree) for name, cls in
+                       _phases.items()}
         self.firstStartTag = False
         self.errors = []
         self.log = []  # only used with debug mode
